@@ -16,11 +16,16 @@ NoRng == <<>>
 In(r, p) == r[1] <= p /\ p < r[2]
 Conv(a, b) == a = b \/ b = "dyn" \/ a = "dyn" \/ {a, b} = {"str", "num"}
 
-\* reference.Target.Matches (local addresses and scopes are not part of this model)
+\* scope ids: an origin constraint names the scope it admits (o.scope, one for all its constraints in this model);
+\* records written without the field are in scope "s"
+ScopeOf(x) == IF "scope" \in DOMAIN x THEN x.scope ELSE "s"
+
+\* reference.Target.Matches (local addresses are not part of this model).  Every constraint is scoped: a declaration of
+\* another scope never matches, whatever its type - a dynamic type is no wildcard for the scope.
 Matches(t, o) ==
-  LET oa == IF t.typ = "dyn" /\ Len(t.addr) < Len(o.addr) /\ o.cons # {} THEN SubSeq(o.addr, 1, Len(t.addr)) ELSE o.addr
+  LET oa == IF t.typ = "dyn" /\ Len(t.addr) < Len(o.addr) /\ o.cons # {} /\ ScopeOf(o) = ScopeOf(t) THEN SubSeq(o.addr, 1, Len(t.addr)) ELSE o.addr
       consOK == IF o.cons = {} THEN t.typ # "none"
-                ELSE \E c \in o.cons : t.typ = "dyn" \/ (t.typ # "none" /\ Conv(t.typ, c))
+                ELSE ScopeOf(o) = ScopeOf(t) /\ \E c \in o.cons : t.typ = "dyn" \/ (t.typ # "none" /\ Conv(t.typ, c))
   IN  t.addr = oa /\ Len(t.addr) > 0 /\ consOK
 
 RECURSIVE Deep(_)
